@@ -107,6 +107,7 @@ def value_shapes(other):
 
 
 PLAIN_VALUES = ["x", "y", "", "  padded  ", "two words", "$$", "x$$y"]
+BIG_VALUES = ["$$" * 1200, "x" + "$$y" * 1500]
 EXTRA_VALUES = ["$(%s)" % ENV_SET, "$(%s)" % ENV_UNSET, "x$", "${a", "$-",
                 "$(%s)" % ENV_DOLLAR, "x$(%s)y" % ENV_DOLLAR,
                 # an escaped dollar followed by a parenthesised word is
@@ -364,7 +365,11 @@ def random_step(rng):
     if rng.random() < 0.07:
         name = rng.choice(BAD_NAMES)
     r = rng.random()
-    if r < 0.4:
+    if r < 0.01:
+        # one value made of more than a thousand $-constructs
+        v = rng.choice(BIG_VALUES + ["$" + spell(rng, rng.choice(NAMES))
+                                     + " " + "$$" * 1100])
+    elif r < 0.4:
         v = rng.choice(PLAIN_VALUES)
     elif r < 0.92:
         v = rng.choice(value_shapes(spell(rng, rng.choice(NAMES))))
@@ -489,6 +494,14 @@ def generate(rng, tier, index):
             # ZConfig.loadConfig (a new loader per load)
             "reuse_loader": rng.random() < 0.5,
             "entry": rng.choice(["url", "url", "file", "override"])}
+    top_incs = [s_ for s_ in steps if s_["op"] == "include"
+                and not s_.get("via")]
+    if top_incs and rng.random() < 0.5:
+        # the unrelated load keeps ITS definitions in a fragment that has the
+        # URL of one of this history's fragments (the file was rewritten
+        # between the loads): what a load reads is what is stored now
+        plan["other"] = [{"op": "include", "ref": top_incs[0]["ref"],
+                          "steps": plan["other"]}]
     incs = includes_of(steps)
     if incs and rng.random() < 0.25:
         j = rng.randint(1, len(incs))
